@@ -138,6 +138,41 @@ def check(run: Run, prog: Program, model: Model, tier: str) -> None:
     conv = sub.lookup("_from_native")
     _memo(run, prog, model, prog.func("d42.utils._from_native.from_native"), rule="CONVERT-PURE",
           roots=[conv] if conv is not None else None, prefixes=("d42.utils", "d42.substitution"))
+    # PRE-VALIDATION: "validated first" only excludes an unsatisfiable result if the validator the substitutor runs rejects
+    # exactly what the declared length props reject (an exact `len(0)` read through `x or y` is no constraint at all)
+    from .c02 import REL
+    from ..vtable import dedupe, extract, relation
+    sv = model.visitors.get("SubstitutorValidator")
+    if sv is not None:
+        fsv = sv.lookup("visit_list")
+        for prop in ("len", "min_len", "max_len"):
+            err, xk, want = REL[prop]
+            rows, _ = extract(prog, model, "SubstitutorValidator", "visit_list", Config((prop,)), 1)
+            rows = [r for r in dedupe(rows) if r.error != "TypeValidationError"]
+            got: Set[str] = set()
+            unknown = False
+            for r in rows:
+                rr = relation(r.term, bool(r.polarity), xk, f"props.{prop}") if r.term is not None else None
+                if rr is None:
+                    unknown = True
+                else:
+                    got |= rr
+            c = f"SubstitutorValidator.visit_list: {prop}"
+            # every rejection must be guarded by the prop being declared (`is Nil` test), not by its truthiness
+            falsy = [r for r in rows if any(k == f"props.{prop}" for k, _, _ in r.all_facts)]
+            if not rows:
+                run.violated("PRE-VALIDATION", c, fsv.loc, f"`{prop}` is not checked before substituting",
+                             witness=f"schema.list.{prop}-constrained % <too long / too short list> returns a schema that rejects that list")
+            elif got and got != set(want) and not unknown:
+                run.violated("PRE-VALIDATION", c, fsv.loc, f"the pre-validation rejects ({xk} ? {prop}) in {sorted(got)}, the prop means {sorted(want)}",
+                             witness="schema.list.len(0) % [1] returns schema.list([...]).len(0), which accepts nothing")
+            elif falsy:
+                run.violated("PRE-VALIDATION", c, fsv.loc, f"`{prop}` is honoured only when it is truthy: a declared 0 is skipped",
+                             witness="schema.list.len(0) % [1] returns schema.list([...]).len(0), which accepts nothing")
+            elif unknown and not got:
+                run.undecided("PRE-VALIDATION", c, fsv.loc, "rejection predicate not a comparison of len(value) with the prop")
+            else:
+                run.holds("PRE-VALIDATION", c, fsv.loc, f"rejects exactly ({xk} ? {prop}) in {sorted(want)}", nontrivial=True)
     run.analysed["substitutor_paths"] = npaths
     run.floor("ONLY-SUBSTITUTIONERROR", 70)
     run.floor("VALIDATE-FIRST", 70)
